@@ -86,3 +86,24 @@ def check_unravel_2d(m: Model, r, rid: str) -> None:
     muts = [n for n in ast.walk(u2.node) if isinstance(n, ast.Call) and isinstance(n.func, ast.Attribute) and n.func.attr in ("add", "update") and ast.unparse(n.func.value) != mp]
     r.check(bool(muts) and all(any(side == "then" and "is not None" in t for side, t in guards(x)) for x in muts), rid, f"{u2.qualname}#extend-only-sets",
             "ids may only be added to an entry that is tested to be not None", loc=u2.loc)
+
+
+def num_eval(expr: ast.expr, env: dict[str, float | int]):
+    """Evaluate a small arithmetic expression (constants, names / attribute chains bound in env, + - * / // %, int(), float(),
+    round()) - used to compare unit conversions on concrete representative values.  Raises AnalysisError outside the language."""
+    t = ast.unparse(expr)
+    if t in env:
+        return env[t]
+    if isinstance(expr, ast.Constant) and isinstance(expr.value, (int, float)) and not isinstance(expr.value, bool):
+        return expr.value
+    if isinstance(expr, ast.UnaryOp) and isinstance(expr.op, ast.USub):
+        return -num_eval(expr.operand, env)
+    if isinstance(expr, ast.BinOp):
+        a, b = num_eval(expr.left, env), num_eval(expr.right, env)
+        ops = {ast.Add: lambda x, y: x + y, ast.Sub: lambda x, y: x - y, ast.Mult: lambda x, y: x * y, ast.Div: lambda x, y: x / y,
+               ast.FloorDiv: lambda x, y: x // y, ast.Mod: lambda x, y: x % y}
+        if type(expr.op) in ops:
+            return ops[type(expr.op)](a, b)
+    if isinstance(expr, ast.Call) and isinstance(expr.func, ast.Name) and expr.func.id in ("int", "float", "round") and len(expr.args) == 1 and not expr.keywords:
+        return {"int": int, "float": float, "round": round}[expr.func.id](num_eval(expr.args[0], env))
+    raise AnalysisError(f"expression outside the arithmetic language: {t}")
